@@ -363,6 +363,11 @@ func (db *RockDB) ltrim2(ts int64, key []byte, startP, stopP int64) error {
 	if stop < 0 {
 		stop = llen + stop
 	}
+	if start < 0 {
+		// a start before the head means the head (as in redis), it must be
+		// normalized before it is compared with stop below
+		start = 0
+	}
 	newLen := int64(0)
 	// whole list deleted
 	if start >= llen || start > stop {
